@@ -16,8 +16,9 @@ def pushNew (acc : List Pat) : List Pat → List Pat
 def Reason.flatMerge : Reason → Reason → Reason
   | .custom m, _ => .custom m
   | _, .custom m => .custom m
-  | .ef ea fa, .ef eb _ =>
-      if eb.length > ea.length then .ef (pushNew eb ea) fa else .ef (pushNew ea eb) fa
+  | .ef ea fa, .ef eb fb =>
+      -- the first error's `found` wins; the other's is used when the first has none (as `merge_expected_found` does)
+      if eb.length > ea.length then .ef (pushNew eb ea) (fa.or fb) else .ef (pushNew ea eb) (fa.or fb)
 
 namespace ErrKind
 
